@@ -48,74 +48,74 @@ def run(ck):
                     return out
 
                 paths = _eval(ck, cls, form, fn)
-                p = single(paths, inst)
-                if not shape_err_verdict(ck, "C01.R7", inst, paths):
-                    continue
-                o = p.value
-                site = prog.method(cls, "amplitude").site()
-                amp, prob, psi, phase, E = (o[k].term for k in ("amp", "prob", "psi", "phase", "E_am"))
-                ea, ep = exp_arg(amp), exp_arg(prob)
-                # R1: |psi|^2 == p~ == exp(-E_lambda)
-                if ea is None or ep is None:
-                    ck.undecided("C01.R1", inst, site, "amplitude/probability are not of the form c*exp(L): %r ; %r" % (amp, prob))
-                else:
-                    ca, La, oa = ea
-                    cp, Lp, op_ = ep
-                    zinv = ((T.Sym("Z"), -1),)
-                    ck.check(ca == 1 and oa == (), "C01.R1", inst + ":amp-prefactor", site,
-                             "amplitude has prefactor %s %s" % (ca, oa))
-                    ck.check(cp == 1 and op_ == zinv, "C01.R1", inst + ":prob-Z", prog.method(cls, "probability").site(),
-                             "probability must be exp(.)/Z exactly once; got coefficient %s, factors %s" % (cp, op_))
-                    d = lin_diff(2 * La, Lp)
-                    ck.check(diff_verdict(d), "C01.R1", inst + ":amp^2=prob", site,
-                             "amplitude^2 vs unnormalised probability: " + diff_msg(d), amp=amp, prob=prob)
-                    d = lin_diff(Lp, -E)
-                    ck.check(diff_verdict(d), "C01.R1", inst + ":prob=exp(-E)", prog.method(cls, "probability").site(),
-                             "log-probability vs -effective_energy(rbm_am): " + diff_msg(d), logp=Lp, E=E)
-                # R4: energy normal form
-                Eref = ref_energy(T.sym("v"), o["R_am"])
-                if form == "vector":
-                    Eref = batch_of_one(Eref)
-                d = lin_diff(E, Eref)
-                ck.check(diff_verdict(d), "C01.R4", inst + ":energy", prog.method("BinaryRBM", "effective_energy").site(),
-                         "effective energy vs -v.b - sum softplus(W v + c): " + diff_msg(d), E=E)
-                # R2: psi = A (cos phi, sin phi)
-                comps = T.as_stack0(psi)
-                psite = prog.method(cls, "psi").site()
-                if comps is None or len(comps) != 2:
-                    ck.undecided("C01.R2", inst, psite, "psi is not a (re, im) pair: %r" % (psi,))
-                else:
-                    re, im = comps
-                    if cls == "PositiveWaveFunction":
-                        ck.check(re == amp, "C01.R2", inst + ":re=amp", psite, "real part of psi differs from amplitude", re=re)
-                        ck.check(im.is_zero(), "C01.R2", inst + ":im=0", psite, "imaginary part of a positive wavefunction is not 0: %r" % (im,))
-                        ck.check(phase.is_zero(), "C01.R2", inst + ":phase=0", prog.method(cls, "phase").site(),
-                                 "phase of a positive wavefunction is not 0: %r" % (phase,))
+                for p in returning(paths, inst):
+                    if not shape_err_verdict(ck, "C01.R7", inst, paths):
+                        continue
+                    o = p.value
+                    site = prog.method(cls, "amplitude").site()
+                    amp, prob, psi, phase, E = (o[k].term for k in ("amp", "prob", "psi", "phase", "E_am"))
+                    ea, ep = exp_arg(amp), exp_arg(prob)
+                    # R1: |psi|^2 == p~ == exp(-E_lambda)
+                    if ea is None or ep is None:
+                        ck.undecided("C01.R1", inst, site, "amplitude/probability are not of the form c*exp(L): %r ; %r" % (amp, prob))
                     else:
-                        _check_polar(ck, inst, psite, re, im, amp, phase)
-                # R3: phase = -E_mu / 2
-                if cls == "ComplexWaveFunction":
-                    d = lin_diff(phase, Fraction(-1, 2) * o["E_ph"].term)
-                    ck.check(diff_verdict(d), "C01.R3", inst, prog.method(cls, "phase").site(),
-                             "phase vs -effective_energy(rbm_ph)/2: " + diff_msg(d), phase=phase)
-                    Eref_ph = ref_energy(T.sym("v"), o["R_ph"])
-                    d = lin_diff(o["E_ph"].term, batch_of_one(Eref_ph) if form == "vector" else Eref_ph)
-                    ck.check(diff_verdict(d), "C01.R4", inst + ":energy_ph", prog.method("BinaryRBM", "effective_energy").site(),
-                             "phase-network energy: " + diff_msg(d))
-                # R6: dependence sets
-                am = {t.single_atom().name for t in o["R_am"].values()}
-                ph = {t.single_atom().name for t in o.get("R_ph", {}).values()}
-                for nm, term, want in (("amplitude", amp, am | {"v"}), ("probability", prob, am | {"v", "Z"}),
-                                       ("phase", phase, (ph | {"v"}) if cls == "ComplexWaveFunction" else set())):
-                    got = term.syms()
-                    ck.check(got == want, "C01.R6", "%s:%s" % (inst, nm), prog.method(cls, nm).site(),
-                             "dependence set is %s, expected %s" % (sorted(got), sorted(want)), deps=sorted(got))
-                # R7: call-form shapes
-                lead = () if form == "vector" else ("B",)
-                for nm, want in (("amp", lead), ("prob", lead), ("phase", lead), ("psi", (2,) + lead)):
-                    got = o[nm].shape
-                    ck.check(None if got is None else got == want, "C01.R7", "%s:%s" % (inst, nm), site,
-                             "shape %s, expected %s" % (got, want))
+                        ca, La, oa = ea
+                        cp, Lp, op_ = ep
+                        zinv = ((T.Sym("Z"), -1),)
+                        ck.check(ca == 1 and oa == (), "C01.R1", inst + ":amp-prefactor", site,
+                                 "amplitude has prefactor %s %s" % (ca, oa))
+                        ck.check(cp == 1 and op_ == zinv, "C01.R1", inst + ":prob-Z", prog.method(cls, "probability").site(),
+                                 "probability must be exp(.)/Z exactly once; got coefficient %s, factors %s" % (cp, op_))
+                        d = lin_diff(2 * La, Lp)
+                        ck.check(diff_verdict(d), "C01.R1", inst + ":amp^2=prob", site,
+                                 "amplitude^2 vs unnormalised probability: " + diff_msg(d), amp=amp, prob=prob)
+                        d = lin_diff(Lp, -E)
+                        ck.check(diff_verdict(d), "C01.R1", inst + ":prob=exp(-E)", prog.method(cls, "probability").site(),
+                                 "log-probability vs -effective_energy(rbm_am): " + diff_msg(d), logp=Lp, E=E)
+                    # R4: energy normal form
+                    Eref = ref_energy(T.sym("v"), o["R_am"])
+                    if form == "vector":
+                        Eref = batch_of_one(Eref)
+                    d = lin_diff(E, Eref)
+                    ck.check(diff_verdict(d), "C01.R4", inst + ":energy", prog.method("BinaryRBM", "effective_energy").site(),
+                             "effective energy vs -v.b - sum softplus(W v + c): " + diff_msg(d), E=E)
+                    # R2: psi = A (cos phi, sin phi)
+                    comps = T.as_stack0(psi)
+                    psite = prog.method(cls, "psi").site()
+                    if comps is None or len(comps) != 2:
+                        ck.undecided("C01.R2", inst, psite, "psi is not a (re, im) pair: %r" % (psi,))
+                    else:
+                        re, im = comps
+                        if cls == "PositiveWaveFunction":
+                            ck.check(re == amp, "C01.R2", inst + ":re=amp", psite, "real part of psi differs from amplitude", re=re)
+                            ck.check(im.is_zero(), "C01.R2", inst + ":im=0", psite, "imaginary part of a positive wavefunction is not 0: %r" % (im,))
+                            ck.check(phase.is_zero(), "C01.R2", inst + ":phase=0", prog.method(cls, "phase").site(),
+                                     "phase of a positive wavefunction is not 0: %r" % (phase,))
+                        else:
+                            _check_polar(ck, inst, psite, re, im, amp, phase)
+                    # R3: phase = -E_mu / 2
+                    if cls == "ComplexWaveFunction":
+                        d = lin_diff(phase, Fraction(-1, 2) * o["E_ph"].term)
+                        ck.check(diff_verdict(d), "C01.R3", inst, prog.method(cls, "phase").site(),
+                                 "phase vs -effective_energy(rbm_ph)/2: " + diff_msg(d), phase=phase)
+                        Eref_ph = ref_energy(T.sym("v"), o["R_ph"])
+                        d = lin_diff(o["E_ph"].term, batch_of_one(Eref_ph) if form == "vector" else Eref_ph)
+                        ck.check(diff_verdict(d), "C01.R4", inst + ":energy_ph", prog.method("BinaryRBM", "effective_energy").site(),
+                                 "phase-network energy: " + diff_msg(d))
+                    # R6: dependence sets
+                    am = {t.single_atom().name for t in o["R_am"].values()}
+                    ph = {t.single_atom().name for t in o.get("R_ph", {}).values()}
+                    for nm, term, want in (("amplitude", amp, am | {"v"}), ("probability", prob, am | {"v", "Z"}),
+                                           ("phase", phase, (ph | {"v"}) if cls == "ComplexWaveFunction" else set())):
+                        got = term.syms()
+                        ck.check(got == want, "C01.R6", "%s:%s" % (inst, nm), prog.method(cls, nm).site(),
+                                 "dependence set is %s, expected %s" % (sorted(got), sorted(want)), deps=sorted(got))
+                    # R7: call-form shapes
+                    lead = () if form == "vector" else ("B",)
+                    for nm, want in (("amp", lead), ("prob", lead), ("phase", lead), ("psi", (2,) + lead)):
+                        got = o[nm].shape
+                        ck.check(None if got is None else got == want, "C01.R7", "%s:%s" % (inst, nm), site,
+                                 "shape %s, expected %s" % (got, want))
         # ---------------- R5 partition / normalization
         inst = cls
         with ck.guard("C01.R5", inst):
@@ -132,23 +132,23 @@ def run(ck):
 
             paths = paths_of(prog, th)
             ck.note_functions(functions_in_paths(paths))
-            p = single(paths, inst)
-            if shape_err_verdict(ck, "C01.R5", inst, paths):
-                o = p.value
-                ref = T.app("sum", T.exp(-o["E"].term), (-1,))
-                site = prog.method("BinaryRBM", "partition").site()
-                part = o["part"].term
-                ok = part == ref
-                if not ok:
-                    d = lin_diff(part, ref)
-                    ck.check(diff_verdict(d), "C01.R5", inst + ":partition", site, "partition vs sum_space exp(-E): " + diff_msg(d), part=part)
-                else:
-                    ck.ok("C01.R5", inst + ":partition", site, part=part)
-                ck.check(o["norm"].term == part, "C01.R5", inst + ":normalization", prog.method(cls, "normalization").site(),
-                         "normalization(space) is not rbm_am.partition(space)")
-                ck.check(o["cnorm"].term == part, "C01.R5", inst + ":compute_normalization", prog.method(cls, "compute_normalization").site(),
-                         "compute_normalization(space) is not normalization(space)")
-                ck.check(o["part"].shape == (), "C01.R5", inst + ":scalar", site, "partition is not a scalar: %s" % (o["part"].shape,))
+            for p in returning(paths, inst):
+                if shape_err_verdict(ck, "C01.R5", inst, paths):
+                    o = p.value
+                    ref = T.app("sum", T.exp(-o["E"].term), (-1,))
+                    site = prog.method("BinaryRBM", "partition").site()
+                    part = o["part"].term
+                    ok = part == ref
+                    if not ok:
+                        d = lin_diff(part, ref)
+                        ck.check(diff_verdict(d), "C01.R5", inst + ":partition", site, "partition vs sum_space exp(-E): " + diff_msg(d), part=part)
+                    else:
+                        ck.ok("C01.R5", inst + ":partition", site, part=part)
+                    ck.check(o["norm"].term == part, "C01.R5", inst + ":normalization", prog.method(cls, "normalization").site(),
+                             "normalization(space) is not rbm_am.partition(space)")
+                    ck.check(o["cnorm"].term == part, "C01.R5", inst + ":compute_normalization", prog.method(cls, "compute_normalization").site(),
+                             "compute_normalization(space) is not normalization(space)")
+                    ck.check(o["part"].shape == (), "C01.R5", inst + ":scalar", site, "partition is not a scalar: %s" % (o["part"].shape,))
     ck.require_min("C01.R1", 16)
     ck.require_min("C01.R2", 8)
     ck.require_min("C01.R3", 2)
